@@ -265,6 +265,9 @@ def _validate_put_ast(self: fst.FST, put_ast: AST, idx: int | None, field: str, 
                               f'{self.a.__class__.__name__}.{field}') +
                              f', got {put_ast.__class__.__name__}')
 
+        elif static.ctx_cls is Store and not is_valid_target(put_ast):  # allowed container type but invalid element inside
+            raise NodeError(f'invalid target for {self.a.__class__.__name__}.{field}')
+
     if (self_cls := self.a.__class__) is arguments:  # Lambda arguments cannot have annotations
         if (put_ast.__class__ is arg and put_ast.annotation
             and (parent := self.parent) and parent.a.__class__ is Lambda
